@@ -1,6 +1,6 @@
-import SeqVerif.Model.CacheSeq
+import SeqVerif.Model.CacheStep
 /-!
-# C18 - `Cleaner.Cleanup` (markStale + bucket visits), `CleanEmptyGenerations`, and the sequential theorems
+# C18 - `Cleaner.Cleanup` (markStale + bucket visits), `CleanEmptyGenerations`; `AInv` holds in every reachable state
 -/
 namespace SV.Cache
 
@@ -70,7 +70,7 @@ theorem getLast?_append_right {α : Type} (a b : List α) (hb : b ≠ []) : (a +
     | [] => simp [hb] at hxs
     | y :: ys => rw [List.cons_append, hxs, List.getLast?_cons_cons, ← hxs, ih]
 
-theorem markStale_post {cfg : Cfg} {s : St} (q : QInv cfg s) (target : Int) : MarkPost cfg s (markStale s target).1 := by
+theorem markStale_post {cfg : Cfg} {s : St} (q : AInv cfg s) (target : Int) : MarkPost cfg s (markStale s target).1 := by
   obtain ⟨sp⟩ := markLoop_spec s.gsize target s.staleL s.glist 0 0
   have hne : s.glist ≠ [] := List.ne_nil_of_mem q.lastGen_mem
   have hrne := sp.nonempty hne
@@ -157,7 +157,7 @@ theorem markStale_post {cfg : Cfg} {s : St} (q : QInv cfg s) (target : Int) : Ma
       simp [this]
 
 /-- after `markStale` with a target of at least `total - limit` the listed generations sum to at most the limit -/
-theorem markStale_size {cfg : Cfg} {s : St} (q : QInv cfg s) (target : Int) (ht : getSize s - cfg.sizeLimit ≤ target) :
+theorem markStale_size {cfg : Cfg} {s : St} (q : AInv cfg s) (target : Int) (ht : getSize s - cfg.sizeLimit ≤ target) :
     getSize (markStale s target).1 ≤ cfg.sizeLimit := by
   obtain ⟨sp⟩ := markLoop_spec s.gsize target s.staleL s.glist 0 0
   have hne : s.glist ≠ [] := List.ne_nil_of_mem q.lastGen_mem
@@ -187,102 +187,105 @@ theorem markStale_size {cfg : Cfg} {s : St} (q : QInv cfg s) (target : Int) (ht 
 
 /-! ## the bucket visits -/
 
-/-- what one pass over the buckets `bs` does to an entry -/
-def evictAll (stale : Nat → Bool) (bs : List Nat) (e : Entry) : Entry :=
-  if decide (e.cache ∈ bs) && (e.inMap && stale e.gen) then { e with inMap := false, deleted := true } else e
+theorem mkTodo_getD (l : List Nat) : (mkTodo l).getD [] = l := by
+  unfold mkTodo; cases l <;> simp
 
-theorem cleanupRest_eq (s : St) (bs : List Nat) :
-    (cleanupRest s bs).1 = { s with heap := s.heap.map (evictAll s.stale bs) } := by
-  induction bs generalizing s with
-  | nil =>
-    have : evictAll s.stale [] = id := by funext e; simp [evictAll]
-    simp [cleanupRest, this]
-  | cons b bs ih =>
-    simp only [cleanupRest]
-    rw [ih]
-    simp only [cacheCleanup, List.map_map]
-    congr 1
-    apply List.map_congr_left
+theorem ainv_cleanupBegin {cfg : Cfg} {s : St} (a : AInv cfg s) (ht : s.todo = none) (target : Int) :
+    AInv cfg { (markStale s target).1 with todo := mkTodo s.buckets } := by
+  have mp := markStale_post a target
+  generalize (markStale s target).1 = s1 at mp
+  have hgs : ∀ g, s1.gsize g = s.gsize g := fun g => by simp [St.gsize, mp.gsizeL]
+  have hrel : ∀ c, s1.released c = s.released c := fun c => by simp [St.released, mp.relL]
+  refine ⟨⟨mp.nodup, mp.listed, mp.last⟩, ?_, mp.managed, ?_, ?_, ?_, ?_, ?_, ?_⟩
+  rotate_right
+  · intro e he; rw [mp.heap] at he; show e.cache < s1.ncaches; rw [mp.ncaches]; exact a.cachelt e he
+  · intro g hg
+    have hg' : s1.ngens ≤ g := hg
+    exact ⟨(hgs g).trans (a.fresh g (by have := mp.ngens; omega)).1, mp.fresh g hg'⟩
+  · intro g hg
+    show s1.gsize g = genLive s1.heap g
+    rw [mp.heap, hgs]
+    rcases mp.new g hg with h | h
+    · exact a.acc g h
+    · rw [(a.fresh g h).1, genLive_fresh a h]
+  · intro e he; rw [mp.heap] at he; exact a.loading0 e he
+  · intro e he hin
+    rw [mp.heap] at he
+    have := a.inmap e he hin
+    refine ⟨by show e.cache < s1.ncaches; rw [mp.ncaches]; exact this.1, (hrel _).trans this.2.1, this.2.2.1, ?_, this.2.2.2.2⟩
+    show e.gen < s1.ngens
+    have := mp.ngens; omega
+  · intro e he; rw [mp.heap] at he; exact a.orphan e he
+  · intro e he hin hst
+    rw [mp.heap] at he
+    have hv := a.valid e he hin hst
+    have him := a.inmap e he hin
+    refine ⟨hv.1, ?_⟩
+    have hgl : e.gen ∈ s.glist := by
+      rcases hv.2 with h | h
+      · exact h
+      · simp [St.pending, ht] at h
+    rcases mp.old e.gen hgl with h | h
+    · exact Or.inl h
+    · refine Or.inr ⟨h, ?_⟩
+      show e.cache ∈ (mkTodo s.buckets).getD []
+      rw [mkTodo_getD]
+      exact (a.managed e.cache him.1 him.2.1).1
+
+theorem ainv_cleanupBucket {cfg : Cfg} {s : St} (a : AInv cfg s) {b : Nat} {rest : List Nat}
+    (ht : s.todo = some (b :: rest)) : AInv cfg { (cacheCleanup s b).1 with todo := mkTodo rest } := by
+  have hmem : ∀ x ∈ (cacheCleanup s b).1.heap, ∃ e ∈ s.heap,
+      x = if evict s.stale b e then { e with inMap := false, deleted := true } else e := by
+    intro x hx
+    simp only [cacheCleanup, List.mem_map] at hx
+    obtain ⟨e, he, rfl⟩ := hx
+    exact ⟨e, he, rfl⟩
+  refine ⟨a.gl, a.fresh, a.managed, ?_, ?_, ?_, ?_, ?_, ?_⟩
+  rotate_right
+  · intro x hx
+    obtain ⟨e, he, rfl⟩ := hmem x hx
+    split <;> exact a.cachelt e he
+  · intro g hg
+    show s.gsize g = genLive (s.heap.map _) g
+    rw [genLive_map, a.acc g hg]
     intro e _
-    simp only [Function.comp, evictAll, evict, St.stale, List.mem_cons]
-    by_cases h1 : e.cache = b
-    · by_cases h2 : (e.inMap && mget false s.staleL e.gen) = true
-      · simp [h1, h2]
-      · simp only [Bool.not_eq_true] at h2
-        simp [h1, h2]
-    · simp [h1]
-
-theorem qinv_cleanup {cfg : Cfg} {s s' : St} {o : List Out} (q : QInv cfg s)
-    (hs : seqOp cfg s .cleanup = some (s', o)) : QInv cfg s' ∧ (0 < cfg.sizeLimit → getSize s' ≤ cfg.sizeLimit) := by
-  by_cases hno : cfg.sizeLimit = 0 ∨ getSize s ≤ cfg.sizeLimit
-  · have hcb : cleanupBegin cfg s = (s, .cleanup false 0 0) := by unfold cleanupBegin; rw [if_pos hno]
-    simp only [seqOp, hcb, Option.some.injEq, Prod.mk.injEq] at hs
-    rw [← hs.1]
-    refine ⟨q, fun hpos => ?_⟩
-    rcases hno with h | h
-    · omega
-    · exact h
-  · have hcb : cleanupBegin cfg s = ({ (markStale s (sizeToClean cfg (getSize s))).1 with todo := mkTodo s.buckets },
-        .cleanup true (sizeToClean cfg (getSize s)) (markStale s (sizeToClean cfg (getSize s))).2) := by
-      unfold cleanupBegin; rw [if_neg hno]
-    simp only [seqOp, hcb, Option.some.injEq, Prod.mk.injEq] at hs
-    rw [← hs.1, cleanupRest_eq]
-    have mp := markStale_post q (sizeToClean cfg (getSize s))
-    have hsz := markStale_size q (sizeToClean cfg (getSize s)) (by unfold sizeToClean; omega)
-    generalize (markStale s (sizeToClean cfg (getSize s))).1 = s1 at mp hsz ⊢
-    have hst0 : ({ s1 with todo := none } : St).stale = s1.stale := rfl
-    rw [hst0]
-    have hstale : ∀ g, s1.stale g = s1.stale g := fun _ => rfl
-    have hgs : ∀ g, s1.gsize g = s.gsize g := fun g => by simp [St.gsize, mp.gsizeL]
-    have hrel : ∀ c, s1.released c = s.released c := fun c => by simp [St.released, mp.relL]
-    constructor
-    · refine ⟨⟨fun t => ?_, rfl⟩, ?_, ⟨mp.nodup, mp.listed, mp.last⟩, ?_, ?_, mp.managed⟩
-      · have := q.quiet.1 t; simp only [St.pc, mp.pcL] at this ⊢; exact this
-      · intro a ha hain
-        simp only [List.mem_map] at ha
-        obtain ⟨e, he, rfl⟩ := ha
-        rw [mp.heap] at he
-        unfold evictAll at hain ⊢
-        split at hain
-        · simp at hain
-        · rename_i hnev
-          rw [if_neg hnev]
-          have hl := q.live e he hain
-          have hb : e.cache ∈ s.buckets := (q.managed e.cache hl.2.2.2.1 hl.2.2.2.2).1
-          have hns : s1.stale e.gen = false := by
-            cases hst : s1.stale e.gen
-            · rfl
-            · exfalso; apply hnev; simp [hb, hain, hstale, hst]
-          refine ⟨hl.1, hl.2.1, ?_, ?_, ?_⟩
-          · rcases mp.old e.gen hl.2.2.1 with h | h
-            · exact h
-            · rw [hns] at h; cases h
-          · show e.cache < s1.ncaches; rw [mp.ncaches]; exact hl.2.2.2.1
-          · show s1.released e.cache = false; rw [hrel]; exact hl.2.2.2.2
-      · intro g hg
-        show s1.gsize g = genLive (s1.heap.map _) g
-        have hgns : s1.stale g = false := (mp.listed g hg).2
-        rw [mp.heap, genLive_map, hgs]
-        · rcases mp.new g hg with h | h
-          · exact q.acc g h
-          · rw [(q.fresh g h).1, genLive_fresh q h]
-        · intro e _
-          unfold evictAll
-          split
-          · rename_i hev
-            simp only [Bool.and_eq_true, decide_eq_true_eq] at hev
-            have : e.gen ≠ g := fun h => by
-              have h2 := hev.2.2; rw [hstale, h, hgns] at h2; cases h2
-            simp [contrib, this]
-          · rfl
-      · intro g hg
-        have hg' : s1.ngens ≤ g := hg
-        refine ⟨?_, mp.fresh g hg'⟩
-        show s1.gsize g = 0
-        rw [hgs]; exact (q.fresh g (by have := mp.ngens; omega)).1
-    · intro _
-      show ((s1.glist.map s1.gsize)).sum ≤ _
-      exact hsz
+    split
+    · rename_i hev
+      simp only [evict, Bool.and_eq_true, beq_iff_eq] at hev
+      have : e.gen ≠ g := fun h => by
+        have h2 := hev.2.2; rw [h, (a.gl.2.1 g hg).2] at h2; cases h2
+      simp [contrib, this]
+    · rfl
+  · intro x hx hst
+    obtain ⟨e, he, rfl⟩ := hmem x hx
+    split at hst <;> rename_i hev <;> simp only [hev, if_true, if_false] <;> exact a.loading0 e he hst
+  · intro x hx hin
+    obtain ⟨e, he, rfl⟩ := hmem x hx
+    split at hin
+    · simp at hin
+    · rename_i hev; simp only [hev, if_false]; exact a.inmap e he hin
+  · intro x hx hin hst
+    obtain ⟨e, he, rfl⟩ := hmem x hx
+    split at hin
+    · rename_i hev; simp [hev]
+    · rename_i hev; simp only [hev, if_false] at hst ⊢; exact a.orphan e he hin hst
+  · intro x hx hin hst
+    obtain ⟨e, he, rfl⟩ := hmem x hx
+    split at hin
+    · simp at hin
+    · rename_i hev
+      simp only [hev, if_false] at hst ⊢
+      have hv := a.valid e he hin hst
+      refine ⟨hv.1, ?_⟩
+      rcases hv.2 with h | h
+      · exact Or.inl h
+      · refine Or.inr ⟨h.1, ?_⟩
+        show e.cache ∈ (mkTodo rest).getD []
+        rw [mkTodo_getD]
+        have hp : e.cache ∈ b :: rest := by have := h.2; simpa [St.pending, ht] using this
+        rcases List.mem_cons.mp hp with hb | hr
+        · exfalso; apply hev; simp [evict, hb, hin, h.1]
+        · exact hr
 
 /-! ## CleanEmptyGenerations -/
 
@@ -293,79 +296,135 @@ theorem eq_dropLast_append {α : Type} (l : List α) (a : α) (h : l.getLast? = 
   rw [← h]
   exact (List.dropLast_concat_getLast hne).symm
 
-theorem qinv_cleanEmpty {cfg : Cfg} {s s' : St} {o : List Out} (q : QInv cfg s)
-    (hs : seqOp cfg s .cleanEmpty = some (s', o)) : QInv cfg s' := by
-  simp only [seqOp, cleanEmpty, q.gl.2.2, Option.map_some, Option.some.injEq, Prod.mk.injEq] at hs
+theorem ainv_cleanEmpty {cfg : Cfg} {s s' : St} {o : Out} (a : AInv cfg s) (ht : s.todo = none)
+    (hs : cleanEmpty s = some (s', o)) : AInv cfg s' := by
+  simp only [cleanEmpty, a.gl.2.2, Option.some.injEq, Prod.mk.injEq] at hs
   rw [← hs.1]
-  have hsplit : s.glist = s.glist.dropLast ++ [s.lastGen] := eq_dropLast_append _ _ q.gl.2.2
+  have hsplit : s.glist = s.glist.dropLast ++ [s.lastGen] := eq_dropLast_append _ _ a.gl.2.2
   have hsub : (s.glist.dropLast.filter (fun g => s.gsize g ≠ 0) ++ [s.lastGen]).Sublist s.glist := by
     conv => rhs; rw [hsplit]
     exact List.Sublist.append List.filter_sublist (List.Sublist.refl _)
-  refine ⟨q.quiet, ?_, ⟨q.gl.1.sublist hsub, fun g hg => q.gl.2.1 g (hsub.subset hg), by simp⟩,
-    fun g hg => q.acc g (hsub.subset hg), q.fresh, q.managed⟩
-  intro e he hin
-  have hl := q.live e he hin
-  refine ⟨hl.1, hl.2.1, ?_, hl.2.2.2⟩
+  refine ⟨⟨a.gl.1.sublist hsub, fun g hg => a.gl.2.1 g (hsub.subset hg), by simp⟩, a.fresh, a.managed,
+    fun g hg => a.acc g (hsub.subset hg), a.loading0, a.inmap, a.orphan, ?_, a.cachelt⟩
+  intro e he hin hst
+  have hv := a.valid e he hin hst
+  refine ⟨hv.1, Or.inl ?_⟩
   show e.gen ∈ s.glist.dropLast.filter (fun g => s.gsize g ≠ 0) ++ [s.lastGen]
-  have hmem := hl.2.2.1
+  have hgl : e.gen ∈ s.glist := by
+    rcases hv.2 with h | h
+    · exact h
+    · simp [St.pending, ht] at h
+  have hmem := hgl
   rw [hsplit] at hmem
   rcases List.mem_append.mp hmem with h | h
   · apply List.mem_append_left
     rw [List.mem_filter]
     refine ⟨h, ?_⟩
     have h1 := le_genLive s.heap he hin
-    rw [← q.acc e.gen hl.2.2.1] at h1
-    have h2 := hl.2.1
+    rw [← a.acc e.gen hgl] at h1
+    have h2 := hv.1
     simp only [ne_eq, decide_not, Bool.not_eq_eq_eq_not, Bool.not_true, decide_eq_false_iff_not]
     omega
   · exact List.mem_append_right _ h
 
-/-! ## all sequential operations -/
+/-! ## every step, every reachable state -/
 
-theorem seqOp_qinv {cfg : Cfg} (hes : 0 < cfg.entrySize) {s s' : St} {op : Op} {o : List Out} (q : QInv cfg s)
-    (hs : seqOp cfg s op = some (s', o)) : QInv cfg s' := by
-  cases op with
+theorem step_ainv (cfg : Cfg) (hes : 0 < cfg.entrySize) {s s' : St} {l : Label} {o : Out} (a : AInv cfg s) (v : VInv s)
+    (hs : step cfg s l = some (s', o)) : AInv cfg s' := by
+  cases l with
   | newCache =>
-    simp only [seqOp, Option.some.injEq, Prod.mk.injEq] at hs
-    rw [← hs.1]
-    have hm : Managed (newCache s) := step_managed cfg q.managed (l := .newCache) (o := .none) rfl
-    refine ⟨q.quiet, ?_, q.gl, q.acc, q.fresh, hm⟩
-    intro e he hin
-    have := q.live e he hin
-    refine ⟨this.1, this.2.1, this.2.2.1, by show e.cache < s.ncaches + 1; omega, ?_⟩
-    show mget false (mset false s.relL s.ncaches false) e.cache = false
-    rw [mget_mset]; split
-    · rfl
-    · exact this.2.2.2.2
-  | get c k oc => exact qinv_get hes q hs
+    simp only [step, Option.some.injEq, Prod.mk.injEq] at hs
+    rw [← hs.1]; exact ainv_newCache a
+  | get t c k =>
+    simp only [step] at hs
+    split at hs
+    · rename_i h
+      simp only [Option.some.injEq] at hs
+      rw [← fst_of_eq hs]; exact ainv_acquire a t c k h.2.1 h.2.2
+    · exact absurd hs (by simp)
+  | wake t =>
+    simp only [step] at hs
+    split at hs
+    · rename_i c k eid hpc
+      split at hs
+      · rename_i e he
+        split at hs
+        · simp only [Option.some.injEq, Prod.mk.injEq] at hs
+          rw [← hs.1]; exact a.setPc t _
+        · split at hs
+          · rename_i hrel
+            simp only [Option.some.injEq] at hs
+            rw [← fst_of_eq hs]
+            -- the cache of a blocked thread exists: its entry was in that cache's map
+            obtain ⟨e', he', hc', -⟩ := v.waiting_key t c k eid hpc
+            exact ainv_acquire a t c k (hc' ▸ a.cachelt e' (List.mem_of_getElem? he')) hrel
+          · exact absurd hs (by simp)
+        · exact absurd hs (by simp)
+      · exact absurd hs (by simp)
+    · exact absurd hs (by simp)
+  | finish t oc =>
+    simp only [step] at hs
+    split at hs
+    · rename_i c k eid hpc
+      split at hs
+      · simp only [Option.some.injEq] at hs
+        rw [← fst_of_eq hs]; exact ainv_save hes a v t c k eid _ _ hpc
+      · simp only [Option.some.injEq, Prod.mk.injEq] at hs
+        rw [← hs.1]; exact ainv_recover a v t c k eid hpc
+      · simp only [Option.some.injEq, Prod.mk.injEq] at hs
+        rw [← hs.1]; exact ainv_recover a v t c k eid hpc
+    · exact absurd hs (by simp)
   | release c =>
-    simp only [seqOp] at hs
+    simp only [step] at hs
     split at hs
     · rename_i hc
       simp only [Option.some.injEq, Prod.mk.injEq] at hs
-      rw [← hs.1]; exact qinv_release q c hc
+      rw [← hs.1]; exact ainv_release a c hc
     · exact absurd hs (by simp)
   | rotate =>
-    simp only [seqOp, Option.some.injEq, Prod.mk.injEq] at hs
-    rw [← hs.1]
-    unfold rotate; split
-    · exact q
-    · exact qinv_doRotate q
-  | cleanup => exact (qinv_cleanup q hs).1
-  | cleanEmpty => exact qinv_cleanEmpty q hs
+    simp only [step] at hs
+    split at hs
+    · simp only [Option.some.injEq] at hs
+      rw [← fst_of_eq hs]
+      unfold rotate; split
+      · exact a
+      · exact ainv_doRotate a
+    · exact absurd hs (by simp)
+  | cleanupBegin =>
+    simp only [step] at hs
+    split at hs
+    · rename_i ht
+      simp only [Option.some.injEq] at hs
+      rw [← fst_of_eq hs]
+      unfold cleanupBegin; split
+      · exact a
+      · exact ainv_cleanupBegin a ht _
+    · exact absurd hs (by simp)
+  | cleanupBucket =>
+    simp only [step] at hs
+    split at hs
+    · rename_i b rest ht
+      simp only [Option.some.injEq, Prod.mk.injEq] at hs
+      rw [← hs.1]; exact ainv_cleanupBucket a ht
+    · exact absurd hs (by simp)
+  | cleanEmpty =>
+    simp only [step] at hs
+    split at hs
+    · rename_i ht
+      exact ainv_cleanEmpty a ht hs
+    · exact absurd hs (by simp)
   | releaseBuckets =>
-    simp only [seqOp, Option.some.injEq, Prod.mk.injEq] at hs
-    rw [← hs.1]
-    have hm : Managed { s with buckets := releaseBuckets s.released s.buckets } := by
-      have : step cfg s .releaseBuckets = some ({ s with buckets := releaseBuckets s.released s.buckets },
-          .count (s.buckets.length - (releaseBuckets s.released s.buckets).length)) := by
-        simp [step, q.quiet.2]
-      exact step_managed cfg q.managed this
-    exact ⟨q.quiet, q.live, q.gl, q.acc, q.fresh, hm⟩
+    simp only [step] at hs
+    split at hs
+    · rename_i ht
+      simp only [Option.some.injEq, Prod.mk.injEq] at hs
+      rw [← hs.1]; exact ainv_releaseBuckets a ht
+    · exact absurd hs (by simp)
 
-theorem seqReach_qinv {cfg : Cfg} (hes : 0 < cfg.entrySize) {s : St} (h : SeqReach cfg s) : QInv cfg s := by
+/-- the accounting invariant holds in every reachable state, whatever the interleaving -/
+theorem reach_ainv (cfg : Cfg) (hes : 0 < cfg.entrySize) {s : St} (h : Reach cfg s) : AInv cfg s := by
   induction h with
-  | init => exact qinv_init cfg
-  | op _ hs ih => exact seqOp_qinv hes ih hs
+  | init => exact ainv_init cfg
+  | step hr hs ih => exact step_ainv cfg hes ih (reach_vinv cfg hr) hs
 
 end SV.Cache
